@@ -130,4 +130,226 @@ theorem objLSubs_kids : ∀ (l : ObjL) (b k : Obj), b ∈ objLSubs l → k ∈ o
     · right; exact objLSubs_kids t b k hb hk
 end
 
+/-! ### the universes of a case are closed under what the machine does -/
+
+theorem le_maxOf {α : Type} (f : α → Nat) : ∀ (l : List α) (a : α), a ∈ l → f a ≤ maxOf f l
+  | [], a, h => by simp at h
+  | b :: t, a, h => by
+    simp only [List.mem_cons] at h
+    simp only [maxOf]
+    rcases h with h | h
+    · subst h; omega
+    · have := le_maxOf f t a h; omega
+
+theorem chkKids_setAttr (c : Chk) (a : Attr) : chkKids (c.setAttr a) = chkKids c := by
+  cases c <;> rfl
+
+theorem setAttr_setAttr (c : Chk) (a b : Attr) : (c.setAttr a).setAttr b = c.setAttr b := by
+  cases c <;> rfl
+
+theorem attr_setAttr (c : Chk) (a : Attr) (h : ∀ n, c ≠ .named n) : (c.setAttr a).attr = a := by
+  cases c <;> first | rfl | (exact absurd rfl (h _))
+
+section
+variable (g : Graph) (ctx : Ctx) (o0 : Obj) (c0 : Chk)
+
+theorem null_mem_objU : Obj.null ∈ objU g o0 := by simp [objU]
+
+theorem objU_kids (b k : Obj) (hb : b ∈ objU g o0) (hk : k ∈ objKids b) : k ∈ objU g o0 := by
+  simp only [objU, List.mem_cons, List.mem_append, List.mem_flatMap] at hb ⊢
+  rcases hb with hb | hb | ⟨d, hd, hb⟩
+  · subst hb; simp [objKids] at hk
+  · right; left; exact objSubs_kids _ _ _ hb hk
+  · right; right; exact ⟨d, hd, objSubs_kids _ _ _ hb hk⟩
+
+theorem lookup_mem_graph : ∀ (g : Graph) (id : Nat × Nat) (t : Obj), g.lookup id = some t → ∃ d ∈ g, d.2 = t
+  | [], id, t, h => by simp [Graph.lookup] at h
+  | (k, v) :: r, id, t, h => by
+    simp only [Graph.lookup] at h
+    split at h
+    · injection h with h; exact ⟨(k, v), by simp, h⟩
+    · obtain ⟨d, hd, e⟩ := lookup_mem_graph r id t h
+      exact ⟨d, by simp [hd], e⟩
+
+theorem objU_lookup (id : Nat × Nat) (t : Obj) (h : g.lookup id = some t) : t ∈ objU g o0 := by
+  obtain ⟨d, hd, e⟩ := lookup_mem_graph g id t h
+  simp only [objU, List.mem_cons, List.mem_append, List.mem_flatMap]
+  right; right; exact ⟨d, hd, by rw [e]; exact objSubs_self t⟩
+
+theorem objU_chase : ∀ (n : Nat) (x : Obj), x ∈ objU g o0 → g.chase n x ∈ objU g o0
+  | 0, x, _ => by simp [Graph.chase, null_mem_objU]
+  | n+1, x, hx => by
+    cases x with
+    | ref a b =>
+      simp only [Graph.chase]
+      cases h : g.lookup (a, b) with
+      | none => exact null_mem_objU g o0
+      | some t => exact objU_chase n t (objU_lookup g o0 _ _ h)
+    | _ => simpa [Graph.chase] using hx
+
+theorem baseU_kids (b k : Chk) (hb : b ∈ baseU ctx c0) (hk : k ∈ chkKids b) : k ∈ baseU ctx c0 := by
+  simp only [baseU, List.mem_append, List.mem_flatMap] at hb ⊢
+  rcases hb with hb | ⟨d, hd, hb⟩
+  · left; exact chkSubs_kids _ _ _ hb hk
+  · right; exact ⟨d, hd, chkSubs_kids _ _ _ hb hk⟩
+
+theorem base_sub_chkU (b : Chk) (hb : b ∈ baseU ctx c0) : b ∈ chkU ctx c0 := by
+  simp only [chkU, List.mem_flatMap]
+  exact ⟨b, hb, by simp [decor]⟩
+
+theorem lookup_mem_ctx : ∀ (ctx : Ctx) (n : String) (v : Chk), ctx.lookup n = some v → ∃ d ∈ ctx, d.2 = v
+  | [], n, v, h => by simp [Ctx.lookup] at h
+  | (k, w) :: r, n, v, h => by
+    simp only [Ctx.lookup] at h
+    cases hr : Ctx.lookup r n with
+    | some x =>
+      simp only [hr] at h
+      injection h with h
+      obtain ⟨d, hd, e⟩ := lookup_mem_ctx r n x hr
+      exact ⟨d, by simp [hd], by rw [e, h]⟩
+    | none =>
+      simp only [hr] at h
+      split at h
+      · injection h with h; exact ⟨(k, w), by simp, h⟩
+      · simp at h
+
+theorem chkU_lookup (n : String) (v : Chk) (h : ctx.lookup n = some v) : v ∈ chkU ctx c0 := by
+  obtain ⟨d, hd, e⟩ := lookup_mem_ctx ctx n v h
+  apply base_sub_chkU
+  simp only [baseU, List.mem_append, List.mem_flatMap]
+  right; exact ⟨d, hd, by rw [e]; exact chkSubs_self v⟩
+
+/-- a decorated node has the children of the node, or none -/
+theorem decor_kids (b d k : Chk) (hd : d ∈ decor b) (hk : k ∈ chkKids d) : k ∈ chkKids b := by
+  simp only [decor, List.mem_cons, List.not_mem_nil, or_false] at hd
+  rcases hd with hd | hd | hd | hd | hd <;> subst hd
+  · exact hk
+  · simpa [Chk.allowInd, chkKids_setAttr] using hk
+  · simpa [chkKids_setAttr] using hk
+  · simp [chkKids] at hk
+  · simp [chkKids] at hk
+
+theorem chkU_kids (d k : Chk) (hd : d ∈ chkU ctx c0) (hk : k ∈ chkKids d) : k ∈ chkU ctx c0 := by
+  simp only [chkU, List.mem_flatMap] at hd
+  obtain ⟨b, hb, hd⟩ := hd
+  exact base_sub_chkU ctx c0 k (baseU_kids ctx c0 b k hb (decor_kids b d k hd hk))
+
+theorem chkU_width (d : Chk) (hd : d ∈ chkU ctx c0) : (chkKids d).length ≤ Wc ctx c0 := by
+  simp only [chkU, List.mem_flatMap] at hd
+  obtain ⟨b, hb, hd⟩ := hd
+  have h1 : (chkKids d).length ≤ (chkKids b).length := by
+    simp only [decor, List.mem_cons, List.not_mem_nil, or_false] at hd
+    rcases hd with hd | hd | hd | hd | hd <;> subst hd
+    · exact Nat.le_refl _
+    · rw [Chk.allowInd, chkKids_setAttr]; exact Nat.le_refl _
+    · rw [chkKids_setAttr]; exact Nat.le_refl _
+    · simp [chkKids]
+    · simp [chkKids]
+  have h2 := le_maxOf (fun d => (chkKids d).length) (baseU ctx c0) b hb
+  simp only [Wc]; omega
+
+theorem objU_width (x : Obj) (hx : x ∈ objU g o0) : (objKids x).length ≤ Wo g o0 :=
+  le_maxOf (fun x => (objKids x).length) (objU g o0) x hx
+
+theorem allowInd_any (a : Attr) : (Chk.any a).allowInd = .any { a with ind := .allowed } := rfl
+
+theorem chkU_allowInd (d : Chk) (hd : d ∈ chkU ctx c0) : d.allowInd ∈ chkU ctx c0 := by
+  simp only [chkU, List.mem_flatMap] at hd ⊢
+  obtain ⟨b, hb, hd⟩ := hd
+  refine ⟨b, hb, ?_⟩
+  simp only [decor, List.mem_cons, List.not_mem_nil, or_false] at hd ⊢
+  rcases hd with hd | hd | hd | hd | hd <;> subst hd
+  · right; left; rfl
+  · right; left; cases b <;> rfl
+  · right; right; left; cases b <;> rfl
+  · right; right; right; right; cases b <;> rfl
+  · right; right; right; right; cases b <;> rfl
+
+/-- guard and bare form of a queued disjunction -/
+theorem chkU_split (a : Attr) (set : ChkL) (hd : Chk.disj a set ∈ chkU ctx c0) :
+    (a ≠ Attr.dflt → Chk.any a ∈ chkU ctx c0) ∧ Chk.disj Attr.dflt set ∈ chkU ctx c0 := by
+  simp only [chkU, List.mem_flatMap] at hd ⊢
+  obtain ⟨b, hb, hd⟩ := hd
+  simp only [decor, List.mem_cons, List.not_mem_nil, or_false] at hd
+  rcases hd with hd | hd | hd | hd | hd
+  · subst hd
+    exact ⟨fun _ => ⟨_, hb, by simp [decor, Chk.attr]⟩, ⟨_, hb, by simp [decor, Chk.setAttr]⟩⟩
+  · cases b <;> simp [Chk.allowInd, Chk.setAttr] at hd
+    obtain ⟨h1, h2⟩ := hd
+    subst h1; subst h2
+    exact ⟨fun _ => ⟨_, hb, by simp [decor, Chk.attr, Chk.allowInd, Chk.setAttr]⟩,
+           ⟨_, hb, by simp [decor, Chk.setAttr]⟩⟩
+  · cases b <;> simp [Chk.setAttr] at hd
+    obtain ⟨h1, h2⟩ := hd
+    subst h1; subst h2
+    exact ⟨fun h => absurd rfl h, ⟨_, hb, by simp [decor, Chk.setAttr]⟩⟩
+  · simp at hd
+  · simp at hd
+
+theorem resolve_cases (tc c : Chk) (h : resolve ctx tc = some c) :
+    c = tc ∨ ∃ n, tc = .named n ∧ ctx.lookup n = some c := by
+  cases tc <;> simp [resolve] at h <;> first | (left; exact h.symm) | (right; exact ⟨_, rfl, h⟩)
+
+theorem chkU_resolve (tc c : Chk) (htc : tc ∈ chkU ctx c0) (h : resolve ctx tc = some c) :
+    c ∈ chkU ctx c0 := by
+  rcases resolve_cases ctx tc c h with h | ⟨n, _, h⟩
+  · rw [h]; exact htc
+  · exact chkU_lookup ctx c0 n c h
+
+theorem mem_pairU (p : Pend) : p ∈ pairU g ctx o0 c0 ↔ p.1 ∈ objU g o0 ∧ p.2 ∈ chkU ctx c0 := by
+  obtain ⟨x, d⟩ := p
+  simp only [pairU, List.mem_flatMap, List.mem_map, Prod.mk.injEq]
+  constructor
+  · rintro ⟨x', hx', d', hd', rfl, rfl⟩; exact ⟨hx', hd'⟩
+  · rintro ⟨hx, hd⟩; exact ⟨x, hx, d, hd, rfl, rfl⟩
+
+end
+
+/-! ### what the per-type cases queue -/
+
+theorem get_mem_vals : ∀ (kvs : ObjL) (key : Bytes) (v : Obj), kvs.get key = some v → v ∈ kvs.vals
+  | .nil, key, v, h => by simp [ObjL.get] at h
+  | .cons k x t, key, v, h => by
+    simp only [ObjL.get] at h
+    simp only [ObjL.vals, ObjL.toList, List.map_cons, List.mem_cons]
+    split at h
+    · injection h with h; left; exact h.symm
+    · right; exact get_mem_vals t key v h
+
+theorem toList_mem_vals (kvs : ObjL) (k : Bytes) (v : Obj) (h : (k, v) ∈ kvs.toList) : v ∈ kvs.vals := by
+  simp only [ObjL.vals, List.mem_map]; exact ⟨(k, v), h, rfl⟩
+
+theorem dictEnts_closed (fx : Fix) (ctx : Ctx) (kvs : ObjL) (Q : Chk → Prop) :
+    ∀ (l : ChkL) (acc chks : List Pend), dictEnts fx ctx kvs l acc = .ok chks →
+      (∀ p ∈ acc, p.1 ∈ kvs.vals ∧ Q p.2) → (∀ k ∈ l.chks, Q k) →
+      (∀ p ∈ chks, p.1 ∈ kvs.vals ∧ Q p.2) ∧ chks.length ≤ acc.length + l.chks.length
+  | .nil, acc, chks, h, hacc, _ => by
+    simp only [dictEnts, EntRes.ok.injEq] at h
+    subst h
+    exact ⟨fun p hp => hacc p (List.mem_reverse.mp hp), by simp⟩
+  | .cons key opt chk t, acc, chks, h, hacc, hl => by
+    have hl' : ∀ k ∈ t.chks, Q k := fun k hk => hl k (by simp [ChkL.chks, ChkL.toList] at hk ⊢; right; exact hk)
+    have hq : Q chk := hl chk (by simp [ChkL.chks, ChkL.toList])
+    have hlen : (ChkL.cons key opt chk t).chks.length = t.chks.length + 1 := by simp [ChkL.chks, ChkL.toList]
+    simp only [dictEnts] at h
+    split at h
+    · simp at h
+    · split at h
+      · have := dictEnts_closed fx ctx kvs Q t acc chks h hacc hl'; exact ⟨this.1, by omega⟩
+      · have := dictEnts_closed fx ctx kvs Q t acc chks h hacc hl'; exact ⟨this.1, by omega⟩
+      · simp at h
+      · simp at h
+      · trace_state
+        rename_i v _ hget _
+        split at h
+        · have := dictEnts_closed fx ctx kvs Q t acc chks h hacc hl'; exact ⟨this.1, by omega⟩
+        · have hacc' : ∀ p ∈ (v, chk) :: acc, p.1 ∈ kvs.vals ∧ Q p.2 := by
+            intro p hp
+            simp only [List.mem_cons] at hp
+            rcases hp with hp | hp
+            · subst hp; exact ⟨get_mem_vals kvs key v hget, hq⟩
+            · exact hacc p hp
+          have := dictEnts_closed fx ctx kvs Q t _ chks h hacc' hl'
+          exact ⟨this.1, by have := this.2; simp at this; omega⟩
+
 end Parsley.TC.Term
